@@ -3,11 +3,12 @@
 package c05
 
 import (
-	"os"
 	"encoding/json"
 	"fmt"
+	"os"
 	"sort"
 	"strings"
+	"time"
 
 	coraza "github.com/corazawaf/coraza/v3"
 	"github.com/corazawaf/coraza/v3/internal/verif/auditcap"
@@ -42,7 +43,7 @@ var flags = []string{
 	"ctlremoveid", "ctlremovetag", "ctlremovetarget", "ctlremovetargettag", "ctlresplimit", "ctlrespproc",
 	"skip3", "skipafter", "allow", "allowrequest", "allowphase", "skip3p2", "skipafterp3",
 	"bigbody", "multipart", "jsonbody", "auditrule",
-	"ctlremovetag,rmid902", // ctl:ruleRemoveByTag (the very action the last probe executes) followed by ctl:ruleRemoveById of a rule without that tag
+	"ctlremovetag,rmid902",                        // ctl:ruleRemoveByTag (the very action the last probe executes) followed by ctl:ruleRemoveById of a rule without that tag
 	"engonpermit", "engonpermitreq", "engonblock", // ctl:ruleEngine=On followed by allow / allow:request / deny (matters on a WAF configured DetectionOnly)
 }
 
@@ -506,6 +507,8 @@ func runVariant(c *runner.Ctx) {
 		if !c.Mine(idx) || c.Expired() {
 			return
 		}
+		stopWatch := c.Watch("predecessor-then-probe", kase{Pred: p, Variant: variant}, 2*time.Minute)
+		defer stopWatch()
 		checkCase(c, refs, p, func(sig, text string, k kase) {
 			k.Variant = variant
 			c.Violation(sig, fmt.Sprintf("audit variant %d; predecessor: flags=%v stop_after=%d logging=%v closes=%d; probe %d (%s)\n%s", variant, k.Pred.Flags, k.Pred.Stop, k.Pred.Logging, k.Pred.Closes, k.Probe, probes[k.Probe].URI, text), k)
